@@ -1,4 +1,3 @@
 package main
 
 type iterState struct{}
-type mapping struct{}
